@@ -11,7 +11,7 @@ EXPLANATION = ('llsym (real-algebraic) runs the real static mj_advance (through 
                '(velocity first: semi-implicit), time\' = time + h, qacc_warmstart = qacc, untouched dofs keep their values; and the real mj_nextActivation for every non-DC dynamics type: '
                'Euler act + h*act_dot, exact filter act + act_dot*tau*(1 - exp(-h/tau)) (exp uninterpreted), and the result clamped into actrange whenever actlimited (any inputs). '
                'The Butcher tableau constants RK4_A / RK4_B read from the lowered IR equal the classical RK4 tableau.')
-BOUNDS = {'quick': {'nv = nq': '<= 2 slide/hinge joints', 'na': '<= 1'}, 'thorough': {'nv = nq': '<= 3'}}
+BOUNDS = {'quick': {'nv = nq': '<= 3 slide/hinge joints', 'na': '<= 1; activation: every pairing of actuator id 0..1 with activation address 0..2'}, 'thorough': {'nv = nq': '<= 4'}}
 OUTSIDE = 'ball/free joints (quaternion integration), implicit integrators (linear solves), RK4 stage composition, history buffers, sleeping, plugins, DC-motor / PID activation states.'
 ASSUMPTIONS = ['mjcb_time not installed', 'real-number semantics', 'mj_sleep returns 0 (nothing put to sleep), sleep disabled', 'nhistory = 0, nplugin = 0', 'exp is an uninterpreted positive function']
 BUDGET = {'quick': 400, 'thorough': 1500}
@@ -206,8 +206,8 @@ def unit_tableau(tier):
 
 def units(tier):
     u = [('rk4_tableau', 'unit_tableau', {})]
-    for nv in ([1, 2] if tier == 'quick' else [1, 2, 3]): u.append(('advance_nv%d' % nv, 'unit_advance', {'nv': nv})); u.append(('euler_nv%d' % nv, 'unit_euler', {'nv': nv}))
+    for nv in ([1, 2, 3] if tier == 'quick' else [1, 2, 3, 4]): u.append(('advance_nv%d' % nv, 'unit_advance', {'nv': nv})); u.append(('euler_nv%d' % nv, 'unit_euler', {'nv': nv}))
     for dyn in ('mjDYN_NONE', 'mjDYN_INTEGRATOR', 'mjDYN_FILTER', 'mjDYN_FILTEREXACT'):
-        for aid, adr in ((0, 0), (1, 0), (0, 2)) if tier == 'quick' else ((0, 0), (1, 0), (0, 2), (1, 1), (1, 2), (0, 1)):
+        for aid, adr in ((0, 0), (1, 0), (0, 2), (1, 1), (1, 2), (0, 1)):
             u.append(('nextActivation_%s_id%d_adr%d' % (dyn, aid, adr), 'unit_activation', {'dyn': dyn, 'aid': aid, 'adr': adr}))
     return u
